@@ -14,6 +14,7 @@ PLAN = dict(
                 "signer and the verifier is still visible."),
     level_note=NOTE_BASE,
     runs=[
+        dict(name="conc", run="^(TestConcReverse|TestConcForward)$", checks=(40, 2000), shards=(2, 8), timeout=(400, 3600), race=True),
         dict(name="forward", run="^(TestPropForward|TestCorpus)$", checks=(1500, 150000), shards=(1, 16), timeout=(300, 3600)),
         dict(name="reuse", run="^TestPropSignerReuse$", checks=(400, 20000), shards=(1, 8), timeout=(300, 3600)),
         dict(name="reverse", run="^TestPropReverse$", checks=(800, 75000), shards=(1, 16), timeout=(300, 3600)),
